@@ -265,7 +265,7 @@ def generate_lemma(unit, name):
     return res, obs
 
 
-def generate_target(unit, cls, fn, concrete=None):
+def generate_target(unit, cls, fn, concrete=None, variant=None):
     """symbolic execution of one function -> (result skeleton, list of Obligation objects)"""
     if cls == "lemma:":
         return generate_lemma(unit, fn)
@@ -274,7 +274,12 @@ def generate_target(unit, cls, fn, concrete=None):
     t0 = time.time()
     obs = []
     try:
-        if cls is not None:
+        if cls is not None and variant:
+            fc = getattr(unit.classes[cls], "variants", {}).get((fn, variant))
+            if fc is None:
+                raise E.StaleContract("no contract variant %s for %s.%s" % (variant, cls, fn))
+            res["target"] += "[%s]" % variant
+        elif cls is not None:
             fc = eng.find_contract(concrete or cls, fn) if concrete else unit.classes[cls].methods[fn]
             if fc is None:
                 raise E.StaleContract("no contract for %s.%s" % (cls, fn))
@@ -326,7 +331,7 @@ def verify_unit(unit_loader, timeout_ms=10000, jobs=8, use_cvc5=False):
     for t in unit.targets:
         cls, fn = t[0], t[1]
         concrete = t[2] if len(t) > 2 else None
-        res, obs = generate_target(unit, cls, fn, concrete)
+        res, obs = generate_target(unit, cls, fn, concrete, t[3] if len(t) > 3 else None)
         skeletons.append((res, len(_OBS), len(obs)))
         _OBS.extend(obs)
     _OPTS = {"timeout_ms": timeout_ms, "use_cvc5": use_cvc5}
